@@ -15,7 +15,7 @@ pub const DEF: PropDef = PropDef {
     run,
     replay,
     level: "exploration",
-    rule: "(transport) messages LONGER than 65535 bytes that are valid ciphertexts under the session key (sealed with the reference cipher under the reference Split() keys; lengths 65536, 65537, +15, +16, +17, +32, +100; stateful and stateless; both backends) must be refused, while the 65535-byte one sealed the same way is accepted; enumeration: for every handshake string x DH x message index, payload lengths {0,1,16,17, classes, max-2..max+2, 65535, 66000} x output buffers {predicted-17..predicted+17 around the prediction, 0, 65535, 65536, 66000}; reads of genuine messages with payload buffers around the payload length, of messages shorter than the fixed fields (every length in thorough) and longer than 65535; transport and stateless likewise. One session in five has PSKs in slots the name does not use (also names without a psk modifier). Prediction = sum of public-key lengths + 16 per encrypted field + payload length from the reference field map. Non-trivial = the call's outcome is constrained by the property (must succeed with the exact length, or must fail with the input error); distinct by (name, message, payload length, buffer length, kind)",
+    rule: "(transport) messages LONGER than 65535 bytes that are valid ciphertexts under the session key (sealed with the reference cipher under the reference Split() keys; lengths 65536, 65537, +15, +16, +17, +32, +100; stateful and stateless; both backends) must be refused, while the 65535-byte one sealed the same way is accepted; enumeration: for every handshake string x DH x message index, payload lengths {0,1,16,17, classes, max-2..max+2, 65535, 66000} x output buffers {predicted-17..predicted+17 around the prediction, 0, 65535, 65536, 66000}; reads of genuine messages with payload buffers around the payload length, of messages shorter than the fixed fields (every length in thorough) and longer than 65535; transport and stateless likewise. Names with the `448` DH choice run on both ends over a custom resolver whose DH has 56-byte keys (a toy function, framing only): lengths predicted with 56-byte key fields, every length below the fixed fields refused. One session in five has PSKs in slots the name does not use (also names without a psk modifier). Prediction = sum of public-key lengths + 16 per encrypted field + payload length from the reference field map. Non-trivial = the call's outcome is constrained by the property (must succeed with the exact length, or must fail with the input error); distinct by (name, message, payload length, buffer length, kind)",
     technique: "boundary-value enumeration against a reference length model (field maps of the clean-room Noise model)",
     assumptions: &[
         "between `predicted` and `predicted+15` bytes of output buffer either outcome is accepted: no listed property says an exactly fitting buffer must succeed, and the code asks for 16 spare bytes even for an unencrypted payload",
@@ -500,6 +500,16 @@ pub fn run(ctx: &Ctx) {
         }
         ctx.run_list("oversize_valid_ciphertexts", &over, false, over_oracle);
     }
+    // a DH function with 56-byte keys (the `448` choice through a custom resolver)
+    {
+        let mut toy = Vec::new();
+        for (ni, hs) in some_hs_names(2).iter().enumerate() {
+            for (k, plen) in [0usize, 1, 17, 1000].iter().enumerate() {
+                toy.push(ToyCase { pattern: hs.pattern.clone(), psks: hs.psks.clone(), cipher: ni + k, hash: ni / 2 + k, plen: *plen, seed: mix(ctx.seed, 31_000 + (ni * 4 + k) as u64) });
+            }
+        }
+        ctx.run_list("custom_dh_56_byte_keys", &toy, false, toy_oracle);
+    }
     // random lengths: windows that no fixed list anticipates
     let names2 = std::sync::Arc::new(all_hs_names());
     let seed = ctx.seed;
@@ -612,8 +622,94 @@ fn over_oracle(c: &OverCase, acc: &mut Acc) -> CaseResult {
     Ok(())
 }
 
+/// Framing with a DH function whose keys are neither 32 nor 65 bytes long: names with the `448`
+/// DH choice, served by a custom resolver (`instr::Toy448Resolver`, 56-byte keys) on both ends.
+/// Lengths are predicted from the token lists with 56-byte key fields.
+#[derive(Clone, Debug, Serialize, Deserialize)]
+pub struct ToyCase {
+    pub pattern: String,
+    pub psks: Vec<u8>,
+    pub cipher: usize,
+    pub hash: usize,
+    pub plen: usize,
+    pub seed: u64,
+}
+
+fn toy_oracle(c: &ToyCase, acc: &mut Acc) -> CaseResult {
+    use crate::instr::{toy448_pub, SharedRng, Toy448Resolver};
+    let pat = crate::refnoise::pattern(&c.pattern).ok_or("pattern")?;
+    let msgs = pat.with_psks(&c.psks).ok_or("psk set")?;
+    let lay = crate::refnoise::layouts_with_len(&msgs, 56);
+    let hs = HsName { pattern: c.pattern.clone(), psks: c.psks.clone() };
+    let name = format!("Noise_{}_448_{}_{}", hs.string(), ["ChaChaPoly", "AESGCM"][c.cipher % 2], ["SHA256", "BLAKE2b", "SHA512", "BLAKE2s"][c.hash % 4]);
+    let sk = [expand(c.seed, 1, 56), expand(c.seed, 2, 56)];
+    let pk = [toy448_pub(&sk[0]), toy448_pub(&sk[1])];
+    let psk = |n: u8| crate::engine::expand32(c.seed, 100 + n as u64);
+    let build = |init: bool| -> Result<snow::HandshakeState, Fail> {
+        let params: snow::params::NoiseParams = name.parse().map_err(|x| Fail::setup(format!("{name}: {x:?}")))?;
+        let rng = SharedRng::seeded(c.seed ^ init as u64, false);
+        let me = if init { 0 } else { 1 };
+        let mut b = snow::Builder::with_resolver(params, Box::new(Toy448Resolver(Some(rng))));
+        if pat.role_uses_static(init) {
+            b = b.local_private_key(&sk[me]).map_err(|x| Fail::setup(format!("{name}: local key: {x:?}")))?;
+        }
+        if pat.role_needs_remote_static(init) {
+            b = b.remote_public_key(&pk[1 - me]).map_err(|x| Fail::setup(format!("{name}: remote key: {x:?}")))?;
+        }
+        let keys: Vec<(u8, [u8; 32])> = c.psks.iter().map(|n| (*n, psk(*n))).collect();
+        for (n, k) in &keys {
+            b = b.psk(*n, k).map_err(|x| Fail::setup(format!("{name}: psk: {x:?}")))?;
+        }
+        let r = if init { b.build_initiator() } else { b.build_responder() };
+        r.map_err(|x| Fail::setup(format!("{name}: build with a custom 56-byte DH: {x:?}")))
+    };
+    let mut hi = build(true)?;
+    let mut hr = build(false)?;
+    for (idx, l) in lay.iter().enumerate() {
+        let (w, r) = if idx % 2 == 0 { (&mut hi, &mut hr) } else { (&mut hr, &mut hi) };
+        let payload = expand(c.seed, 50 + idx as u64, c.plen);
+        let predicted = l.overhead + c.plen;
+        let ctx = format!("{name} message {idx} (payload {}): predicted length {predicted} (fixed overhead {} with 56-byte keys)", c.plen, l.overhead);
+        // does not fit by one byte
+        if predicted > 0 {
+            let mut small = vec![0u8; predicted - 1];
+            let res = call("HandshakeState::write_message", || w.write_message(&payload, &mut small))?;
+            ensure!(res.is_err(), "{ctx}: written into a buffer of {} bytes: {res:?}", predicted - 1);
+        }
+        let mut buf = vec![0u8; predicted + 16];
+        let res = call("HandshakeState::write_message", || w.write_message(&payload, &mut buf))?;
+        must_succeed(&res, &ctx, "ample buffer")?;
+        let n = res.unwrap();
+        ensure!(n == predicted, "{ctx}: write returned {n}");
+        let msg = buf[..n].to_vec();
+        // every length below the fixed fields is refused
+        let fixed = l.overhead;
+        for cut in [0usize, 1, 31, 32, 33, 55, 56, 57, fixed.saturating_sub(17), fixed.saturating_sub(1)] {
+            if cut < fixed && cut < msg.len() {
+                let mut out = vec![0u8; 65535];
+                let res = call("HandshakeState::read_message", || r.read_message(&msg[..cut], &mut out))?;
+                ensure!(res.is_err(), "{ctx}: a message of {cut} bytes is shorter than the fixed fields ({fixed} bytes) but was read successfully: {res:?}");
+            }
+        }
+        let mut out = vec![0u8; c.plen + 16];
+        let res = call("HandshakeState::read_message", || r.read_message(&msg, &mut out))?;
+        must_succeed(&res, &ctx, "genuine message, adequate buffer")?;
+        let got = res.unwrap();
+        ensure!(got == msg.len() - l.overhead, "{ctx}: read returned {got}, expected message length - overhead = {}", msg.len() - l.overhead);
+        ensure!(out[..got] == payload[..], "{ctx}: payload differs");
+    }
+    ensure!(hi.is_handshake_finished() && hr.is_handshake_finished(), "{name}: not finished");
+    if pat.remote_static_arrives_at(false).is_some() || pat.role_needs_remote_static(false) {
+        ensure!(hr.get_remote_static() == Some(&pk[0][..]), "{name}: responder reports a remote static of {:?} bytes", hr.get_remote_static().map(|x| x.len()));
+    }
+    acc.label("custom_dh:56_byte_keys");
+    acc.nontrivial(&format!("{c:?}"));
+    Ok(())
+}
+
 pub fn replay(ctx: &Ctx, sub: &str, case: &serde_json::Value, origin: &str) -> bool {
     match sub {
+        "custom_dh_56_byte_keys" => ctx.replay_case::<ToyCase, _>(sub, case, toy_oracle, origin),
         "oversize_valid_ciphertexts" => ctx.replay_case::<OverCase, _>(sub, case, over_oracle, origin),
         x if x.contains("transport") => ctx.replay_case::<TCase, _>(sub, case, t_oracle, origin),
         _ => ctx.replay_case::<Case, _>(sub, case, oracle, origin),
